@@ -221,6 +221,7 @@ func translateFormulas(repo string, writeImp func(string, string, string)) {
 	b.WriteString("def equalBody : List String := [" + quoteAll(facts) + "]\n")
 	b.WriteString(translateSqrtChain(repo))
 	b.WriteString(translateMsmInstances(repo))
+	b.WriteString(translateSelectors(repo))
 	writeImp("Formulas.lean", "", b.String())
 }
 
